@@ -62,7 +62,7 @@ _CELLSETS = {}
 
 
 def _cellset(relpath):
-    """exact cells of a finding, one per line, committed under /verif/findings (read-only at run time)"""
+    """exact (cell TAB symptom) pairs of a finding, one per line, committed under /verif/findings (read-only at run time)"""
     if relpath not in _CELLSETS:
         with open(os.path.join(common.VERIF, relpath)) as f:
             _CELLSETS[relpath] = set(ln.rstrip("\n") for ln in f if ln.strip())
@@ -78,7 +78,7 @@ def match_finding(findings, v):
         if v["symptom"] not in syms:
             continue
         if "cells_file" in m:
-            if v["cell"] in _cellset(m["cells_file"]):
+            if v["cell"] + "\t" + v["symptom"] in _cellset(m["cells_file"]):      # exact (cell, symptom) pairs
                 return f
             continue
         cells = m["cell"] if isinstance(m["cell"], list) else [m["cell"]]
